@@ -1410,5 +1410,73 @@ package stackage
 //@ ensures[C10:pop.lifo] !fifo && acq(ulen(r)) > 0 ==> slice == acq(slot(r, ulen(r))) && ulen(r) == acq(ulen(r)) - 1 && (forall k :: 0 <= k && k <= ulen(r) ==> slot(r, k) == acq(slot(r, k)))
 //@ ensures[C10:pop.fifo] fifo && acq(ulen(r)) > 0 ==> slice == acq(slot(r, 1)) && ulen(r) == acq(ulen(r)) - 1 && (forall k :: 1 <= k && k <= ulen(r) ==> slot(r, k) == acq(slot(r, k + 1)))
 //@ ensures[C10:pop.empty] acq(ulen(r)) == 0 ==> slice == nil && !ok && hdr(r) == acq(hdr(r))
-//@ ensures[C10:pop.notcfg] !is_v_cfgp(slice)
 //@ modifies Cell_stack[r], Mem_Val, F_nodeConfig_ldr[cfgOf(r)]
+
+//@ func (*stack).remove @lock
+//@ tags C10
+//@ safety C10
+//@ requires wf(r) && F_nodeConfig_mtx[cfgOf(r)] != nil
+//@ let cf := cfgOf(r)
+//@ ensures[C10:remove.wf] wf(r) && cfgOf(r) == cf
+//@ ensures[C10:remove.atomic] ok ==> ulen(r) == acq(ulen(r)) - 1 && (exists t :: 1 <= t && t <= acq(ulen(r)) && slice == acq(slot(r, t)) && (forall k :: 0 <= k && k < t ==> slot(r, k) == acq(slot(r, k))) && (forall k :: t <= k && k <= ulen(r) ==> slot(r, k) == acq(slot(r, k + 1))))
+//@ ensures[C10:remove.unchanged] !ok ==> ulen(r) == acq(ulen(r)) && (forall k :: 0 <= k && k <= ulen(r) ==> slot(r, k) == acq(slot(r, k)))
+//@ modifies Cell_stack[r], Mem_Val, F_nodeConfig_ldr[cfgOf(r)]
+
+//@ func (*stack).insert @lock
+//@ tags C10
+//@ safety C10
+//@ requires wf(r) && F_nodeConfig_mtx[cfgOf(r)] != nil && x != nil
+//@ let cf := cfgOf(r)
+//@ ensures[C10:insert.wf] wf(r) && cfgOf(r) == cf
+//@ ensures[C10:insert.atomic] ok ==> ulen(r) == acq(ulen(r)) + 1 && (exists p :: 0 <= p && p <= acq(ulen(r)) && slot(r, p + 1) == x && (forall k :: 0 <= k && k <= p ==> slot(r, k) == acq(slot(r, k))) && (forall k :: p + 1 <= k && k <= acq(ulen(r)) ==> slot(r, k + 1) == acq(slot(r, k))))
+//@ ensures[C10:insert.unchanged] !ok ==> ulen(r) == acq(ulen(r)) && (forall k :: 0 <= k && k <= ulen(r) ==> slot(r, k) == acq(slot(r, k)))
+//@ modifies Cell_stack[r], Mem_Val, F_nodeConfig_ldr[cfgOf(r)]
+
+//@ func (*stack).swap @lock
+//@ tags C10
+//@ safety C10
+//@ requires wf(r) && F_nodeConfig_mtx[cfgOf(r)] != nil
+//@ let cf := cfgOf(r)
+//@ ensures[C10:swap.wf] wf(r) && cfgOf(r) == cf && ulen(r) == acq(ulen(r))
+//@ ensures[C10:swap.atomic] (forall k :: 0 <= k && k <= ulen(r) ==> slot(r, k) == acq(slot(r, k))) || (0 <= i && i < ulen(r) && 0 <= j && j < ulen(r) && slot(r, i + 1) == acq(slot(r, j + 1)) && slot(r, j + 1) == acq(slot(r, i + 1)) && (forall k :: 0 <= k && k <= ulen(r) && k != i + 1 && k != j + 1 ==> slot(r, k) == acq(slot(r, k))))
+//@ modifies Cell_stack[r], Mem_Val, F_nodeConfig_ldr[cfgOf(r)]
+
+//@ func (*stack).replace @lock
+//@ tags C10
+//@ safety C10
+//@ requires wf(r) && F_nodeConfig_mtx[cfgOf(r)] != nil
+//@ let cf := cfgOf(r)
+//@ ensures[C10:replace.wf] wf(r) && cfgOf(r) == cf && ulen(r) == acq(ulen(r))
+//@ ensures[C10:replace.atomic] (forall k :: 0 <= k && k <= ulen(r) && !(ok && k == i + 1) ==> slot(r, k) == acq(slot(r, k))) && (ok ==> 0 <= i && i < ulen(r) && slot(r, i + 1) == x)
+//@ modifies Cell_stack[r], Mem_Val, F_nodeConfig_ldr[cfgOf(r)]
+
+//@ func (*stack).reverse @lock
+//@ tags C10
+//@ safety C10
+//@ requires wf(r) && F_nodeConfig_mtx[cfgOf(r)] != nil
+//@ let cf := cfgOf(r)
+//@ ensures[C10:reverse.wf] wf(r) && cfgOf(r) == cf && hdr(r) == acq(hdr(r))
+//@ ensures[C10:reverse.atomic] forall k :: 1 <= k && k <= ulen(r) ==> slot(r, k) == acq(slot(r, ulen(r) + 1 - k))
+//@ modifies Cell_stack[r], Mem_Val, F_nodeConfig_ldr[cfgOf(r)]
+//@ loop 1 invariant 1 <= i && i + j == len(hdr(r)) && j <= len(hdr(r)) - 1 && hdr(r) == acq(hdr(r)) && G_held[F_nodeConfig_mtx[cf]] && F_nodeConfig_mtx[cf] == old(F_nodeConfig_mtx[cf])
+//@ loop 1 invariant forall q :: 0 <= q && q < len(hdr(r)) && (q < i || q > j) && q != 0 ==> cell(hdr(r), q) == acq(cell(hdr(r), len(hdr(r)) - q))
+//@ loop 1 invariant forall q :: (i <= q && q <= j) || q == 0 ==> cell(hdr(r), q) == acq(cell(hdr(r), q))
+
+//@ func (*stack).reset @lock
+//@ tags C10
+//@ safety C10
+//@ requires wf(r) && F_nodeConfig_mtx[cfgOf(r)] != nil
+//@ let cf := cfgOf(r)
+//@ ensures[C10:reset.wf] wf(r) && cfgOf(r) == cf && ulen(r) == 0
+//@ modifies Cell_stack[r], Mem_Val, F_nodeConfig_ldr[cfgOf(r)], alloc
+
+//@ func (*stack).push @lock
+//@ tags C10
+//@ safety C10
+//@ requires wf(r) && F_nodeConfig_mtx[cfgOf(r)] != nil && okslice(x, alloc) && F_nodeConfig_ppf[cfgOf(r)] == nil && len(x) == 1
+//@ let cf := cfgOf(r)
+//@ let nn := bit(F_nodeConfig_opt[cf], 0x0100)
+//@ let cp := F_nodeConfig_cap[cf]
+//@ ensures[C10:push.wf] wf(r) && cfgOf(r) == cf
+//@ ensures[C10:push.atomic] (forall k :: 0 <= k && k <= acq(ulen(r)) ==> slot(r, k) == acq(slot(r, k))) && (ulen(r) == acq(ulen(r)) || (ulen(r) == acq(ulen(r)) + 1 && slot(r, ulen(r)) == old(x[0]) && accept(nn, old(x[0])) && (cp == 0 || acq(len(hdr(r))) < cp)))
+//@ modifies Cell_stack[r], Mem_Val, F_nodeConfig_ldr[cfgOf(r)], alloc
